@@ -35,9 +35,13 @@ def install_flask_stub():
 
     class Request:
         class headers:
+            # what the client sent: a browser, a phone, a TV, or no User-Agent header at all (a script fetching a URL)
+            agent = 'Mozilla/5.0 (X11; Linux)'
+
             @staticmethod
-            def get(name):
-                return 'Mozilla/5.0 (X11; Linux)'
+            def get(name, default=None):
+                a = Request.headers.agent
+                return default if a is None else a
     m.Blueprint = Blueprint
     m.request = Request
     m.render_template = lambda template, **ctx: Rendered(template, ctx)
@@ -189,6 +193,9 @@ def worker(args):
                             problems.append('%s: %s handed to the page as %r, expected %r (escaped once)' % (what, attr, got, html.escape(orig)))
 
             for step in range(args['requests']):
+                import flask as _flask
+                _flask.request.headers.agent = pick(ctx, ['Mozilla/5.0 (X11; Linux)', 'Mozilla/5.0 (Linux; Android 13) Mobile', 'SmartTV', None], 'user-agent') \
+                    if step == args['requests'] - 1 else 'Mozilla/5.0 (X11; Linux)'
                 forced_path = None
                 if directed and step < 2 and len(listed) == 2:
                     # a background script and a queued script both under way, then any request
